@@ -85,12 +85,35 @@ fn single(rt: &tokio::runtime::Runtime, c: &Case) -> Outcome {
     log.finish()
 }
 
+const SIG_EDGE_REVERSAL: &str = "stale memberof after one replicated change set that reverses a membership edge between two groups";
+
+/// (group, member) pairs among live groups
+fn group_edges(entries: &[inv::E]) -> std::collections::BTreeSet<(kanidmd_lib::prelude::Uuid, kanidmd_lib::prelude::Uuid)> {
+    use kanidmd_lib::prelude::*;
+    let mut out = std::collections::BTreeSet::new();
+    for g in inv::live(entries) {
+        if g.has_class(&EntryClass::Group) {
+            for m in inv::refs(g, Attribute::Member) {
+                out.insert((g.get_uuid(), m));
+            }
+        }
+    }
+    out
+}
+
 fn replicated(rt: &tokio::runtime::Runtime, c: &RCase) -> Outcome {
     let mut log = CaseLog::new();
     rt.block_on(async {
         let mut cl = Cluster::new(2).await;
         let mut applied = 0;
         for (i, s) in c.steps.iter().enumerate() {
+            // group -> member edges on the consumer BEFORE a replication step (for the edge-reversal fingerprint)
+            let pre_edges = if let Step::Repl { to, .. } = s {
+                let mut rtxn = cl.nodes[*to as usize % 2].qs.read().await.expect("read");
+                Some(group_edges(&vf_world::dump::all_entries(&mut rtxn).expect("entries")))
+            } else {
+                None
+            };
             let r = cl.step(s).await;
             let node = match (s, &r) {
                 (Step::Do { r: n, .. }, StepResult::Op(Ok(()))) => Some(*n as usize % 2),
@@ -105,8 +128,17 @@ fn replicated(rt: &tokio::runtime::Runtime, c: &RCase) -> Outcome {
                 let mut rtxn = cl.nodes[n].qs.read().await.expect("read");
                 let entries = vf_world::dump::all_entries(&mut rtxn).expect("entries");
                 if let Some((sig, detail)) = inv::memberof_classify(&entries) {
+                    // Known finding: ONE replicated change set removes edge X -> Y and adds edge Y -> X
+                    // (the union of old and new graph has a cycle, the new graph has none); the members
+                    // below keep the old transitive membership. Fingerprint: such a reversed pair exists
+                    // between the consumer's graph before and after this step.
+                    let reversed = pre_edges.as_ref().map(|pre| {
+                        let post = group_edges(&entries);
+                        pre.iter().any(|(x, y)| !post.contains(&(*x, *y)) && post.contains(&(*y, *x)) && !pre.contains(&(*y, *x)))
+                    });
+                    let sig = if sig == inv::SIG_MO_MISMATCH && reversed == Some(true) { SIG_EDGE_REVERSAL } else { sig };
                     log.fail(sig, format!("replica {n} after step {i} {s:?} -> {r:?}: {detail}"));
-                    if sig != inv::SIG_MO_STALE_CYCLE {
+                    if sig != inv::SIG_MO_STALE_CYCLE && sig != SIG_EDGE_REVERSAL {
                         break;
                     }
                 }
@@ -130,7 +162,7 @@ fn main() {
     );
     cx.assume("rejected operations are also required to leave the database unchanged (dump equality)");
     let w = weights();
-    let n = cx.tier.pick(400, 12_000);
+    let n = cx.tier.pick(400, 4_000);
     let len = cx.tier.pick(10..45usize, 20..120usize);
     cx.prop(
         "single-server-histories",
@@ -139,7 +171,7 @@ fn main() {
         srv::runtime,
         |rt, c| single(rt, c),
     );
-    let n2 = cx.tier.pick(120, 3_000);
+    let n2 = cx.tier.pick(120, 1_200);
     let len2 = cx.tier.pick(10..40usize, 20..90usize);
     cx.prop(
         "two-replica-histories",
